@@ -345,7 +345,17 @@ Inductive sfilter :=
 | SfNone
 | SfA85
 | SfFlate (blk : N) (pred : option pstyle)
-| SfA85Flate (blk : N) (pred : option pstyle).
+| SfA85Flate (blk : N) (pred : option pstyle)
+| SfAHx (upper : bool) (ws : list N).     (* ASCIIHexDecode, 7.4.2: two hex digits per byte, white-space ignored, '>' ends *)
+
+Fixpoint ahx_encode (upper : bool) (ws all : list N) (data : bytes) : bytes :=
+  match data with
+  | [] => [x3e]
+  | b :: data' =>
+    let sep := match ws with k :: _ => if k mod 7 =? 0 then [ws_byte (k / 7)] else [] | [] => [] end in
+    sep ++ hexd upper (N_of_byte b / 16) :: hexd upper (N_of_byte b mod 16) ::
+    ahx_encode upper (match ws with _ :: t => t | [] => all end) all data'
+  end.
 
 Fixpoint chunks (fuel : nat) (n : nat) (data : bytes) : list bytes :=
   match fuel with
@@ -393,6 +403,7 @@ Definition apply_filter (f : sfilter) (cols : N) (as_array : bool) (data : bytes
     (zlib_stored blk d1,
      (bs "Filter", one (bs "FlateDecode")) ::
      match parms with [] => [] | _ => [(bs "DecodeParms", if as_array then OArr [ODict parms] else ODict parms)] end)
+  | SfAHx u ws => (ahx_encode u ws ws data, [(bs "Filter", one (bs "ASCIIHexDecode"))])
   | SfA85Flate blk p =>
     let '(d1, parms) := pred_of p in
     (A85Spec.encode (zlib_stored blk d1) ++ A85Spec.EOD,
@@ -741,6 +752,12 @@ Fixpoint obj_deep (o : obj) : bool :=
 
 Definition Known_deep_parens (a : adoc) : bool :=
   existsb (fun io => obj_deep (snd io)) (a_objs a) || obj_deep (ODict (a_trailer a)).
+
+(* ---------- known finding C02-asciihex: a structural stream is encoded with ASCIIHexDecode ---------- *)
+Definition is_ahx (f : sfilter) : bool := match f with SfAHx _ _ => true | _ => false end.
+Definition Known_asciihex (st : fstyle) : bool :=
+  existsb (fun s => is_ahx (os_filter s)) (s_ostms st) ||
+  match s_xref st with XStream x => is_ahx (xs_filter x) | XTable _ => false end.
 
 (* ---------- what the file defines ---------- *)
 (* A stream's Length entry is the number of bytes of its data, whether it was written directly or through
